@@ -91,7 +91,7 @@ func createGetCmafIngesterInfoHdlr(s *Server) func(ctx context.Context, input *i
 		if err != nil {
 			return nil, huma.Error400BadRequest(fmt.Sprintf("Invalid ID: %s", input.Id))
 		}
-		ing, ok := s.cmafMgr.ingesters[uint64(id)]
+		ing, _, ok := s.cmafMgr.getIngester(uint64(id))
 		if !ok {
 			return nil, huma.Error404NotFound(fmt.Sprintf("CMAF ingest %s not found", input.Id))
 		}
@@ -111,7 +111,7 @@ func createStepCmafIngesterHdlr(s *Server) func(ctx context.Context, input *idIn
 		if err != nil {
 			return nil, huma.Error400BadRequest(fmt.Sprintf("Invalid ID: %s", input.Id))
 		}
-		ci, ok := s.cmafMgr.ingesters[uint64(id)]
+		ci, _, ok := s.cmafMgr.getIngester(uint64(id))
 		if !ok {
 			return nil, huma.Error404NotFound(fmt.Sprintf("CMAF ingest %s not found", input.Id))
 		}
@@ -133,15 +133,17 @@ func createDeleteCmafIngesterHdlr(s *Server) func(ctx context.Context, input *id
 		if err != nil {
 			return nil, huma.Error400BadRequest(fmt.Sprintf("Invalid ID: %s", input.Id))
 		}
-		ci, ok := s.cmafMgr.ingesters[uint64(id)]
+		ci, cancel, ok := s.cmafMgr.getIngester(uint64(id))
 		if !ok {
 			return nil, huma.Error404NotFound(fmt.Sprintf("CMAF ingest %s not found", input.Id))
 		}
-		if ci.getState() == ingesterStateRunning {
-			ci.mgr.cancels[uint64(id)]()
+		if ci.getState() == ingesterStateRunning && cancel != nil {
+			cancel()
 		}
 
-		s.cmafMgr.cancels[uint64(id)]()
+		if cancel != nil {
+			cancel()
+		}
 		resp := &CmafIngestDeleteResponse{}
 		resp.Body.ID = fmt.Sprintf("Deleted %s!", input.Id)
 		return resp, nil
